@@ -228,8 +228,86 @@ void vf_harness()
                 trusted=["matrix/vector stub classes; clone()/new return fresh objects; invert() may fail nondeterministically"])
 
 
+def unit_estimate_status():
+    """KrigingSystem::estimate: a failed step of the current target reaches the store routine as a non-zero status AND invalidates the neighbourhood memo,
+    so that nothing computed for an earlier target is served for this one or the next."""
+    BOOL = "typedef _Bool bool;\n#define true 1\n#define false 0\n"
+    pre = BOOL + """
+#define messerr(...) ((void)0)
+#define message(...) ((void)0)
+#define mestitle(...) ((void)0)
+#define db_sample_print(...) ((void)0)
+#define NT_IMAGE 1
+#define NT_UNIQUE 2
+#define NT_MOVING 3
+#define M_Simple 1
+#define M_Init 2
+bool _isReady, _flagFactorKriging, _flagNeighOnly, _flagBayes, _flagDataChanged, _flagStd, _flagVarZ, _flagSimu, _flagWeights, _flagKeypairWeights, _flagAnam, _flagGlobal;
+int _iechOut, _nclasses; bool g_flagXvalid;
+/* ghost log */
+int g_fail, g_store_calls, g_store_status, g_changed_calls, g_wgt_calls, g_steps_after_fail, g_local_model;
+static int step(void) { if (g_fail) g_steps_after_fail++; int rc = nondet_bool() ? 1 : 0; if (rc) g_fail = 1; return rc; }
+static void work(void) { if (g_fail) g_steps_after_fail++; }
+static bool VF_isActive(int iech) { return nondet_bool(); }
+static void VF_select(void) {}
+static bool VF_isUnchanged(void) { return nondet_bool(); }
+static void VF_setIsChanged(void) { g_changed_calls++; }
+static void VF_setLocalModel(int m) { g_local_model = m; }
+static int _setInternalShortCutVariablesNeigh(void) { return step(); }
+static int _prepar(void) { return step(); }
+static void _dualCalcul(void) { work(); }
+static int _rhsCalcul(void) { return step(); }          /* returns 1 when a drift function is undefined at the target */
+static void _rhsIsoToHetero(void) { work(); } static void _rhsDump(void) {} static void _wgtCalcul(void) { g_wgt_calls++; work(); } static void _wgtDump(int status) {} static void _saveWeights(int status) {}
+static void _bayesCorrectVariance(void) {}
+static void store(int status) { g_store_calls++; g_store_status = status; }
+static void _neighCalcul(int status, int tab) { store(status); } static void _estimateCalculImage(int status) { store(status); } static void _estimateCalculXvalidUnique(int status) { store(status); }
+static void _simulateCalcul(int status) { store(status); } static void _estimateCalcul(int status) { store(status); }
+static void _transformGaussianToRaw(void) {} static void _simulateDump(int status) {} static void _krigingDump(int status) {}
+"""
+    f = Fn("KrigingSystem::estimate", "src/Estimation/KrigingSystem.cpp", r"^int KrigingSystem::estimate\(int iech_out\)\s*$", csig="int KrigingSystem_estimate(int iech_out)",
+           rewrites=[(r"_neigh->getType\(\) == ENeigh::(\w+)", r"(W_neighType == NT_\1)", None),
+                     (r"_neigh->getFlagXvalid\(\)", "g_flagXvalid", None), (r"_neigh->setFlagXvalid\((\w+)\)", r"g_flagXvalid = \1", None),
+                     (r"_dbout->isActive\(_iechOut\)", "VF_isActive(_iechOut)", 1), (r"OptDbg::setCurrentIndex\(_iechOut \+ 1\);", ";", "opt"),
+                     (r"OptDbg::query\(EDbg::\w+\)", "0", None), (r"OptDbg::force\(\)", "W_force", None),
+                     (r"_model->getActiveFactor\(\)", "0", "opt"),
+                     (r"_neigh->select\(_iechOut, _nbgh\);", "VF_select();", 1), (r"_neigh->isUnchanged\(\)", "VF_isUnchanged()", None),
+                     (r"_neigh->getFlagContinuous\(\)", "W_continuous", None), (r"_neigh->setIsChanged\(\);", "VF_setIsChanged();", "opt"),
+                     (r"_setLocalModel\(_model(\w+)\)", r"VF_setLocalModel(M_\1)", None),
+                     (r"VectorDouble tab = _neigh->summary\(_iechOut\);", "int tab = 0;", 1)])
+    h = """
+void vf_harness(void)
+{
+  vf_havoc_inputs();
+  __CPROVER_assume(NT_IMAGE <= W_neighType && W_neighType <= NT_MOVING);
+  /* (a havocked _Bool may hold a non-canonical bit pattern: normalise) */
+  _isReady = 1; _flagFactorKriging = 0; _flagNeighOnly = W_neighOnly ? 1 : 0; _flagBayes = W_bayes ? 1 : 0; _flagDataChanged = W_dataChanged ? 1 : 0; _flagStd = W_std ? 1 : 0;
+  _flagVarZ = W_varz ? 1 : 0; _flagSimu = W_simu ? 1 : 0; _flagWeights = W_weights ? 1 : 0; _flagKeypairWeights = W_kp ? 1 : 0; _flagAnam = W_anam ? 1 : 0; _flagGlobal = W_global ? 1 : 0;
+  g_flagXvalid = W_xvalid ? 1 : 0;
+  g_fail = 0; g_store_calls = 0; g_store_status = 0; g_changed_calls = 0; g_wgt_calls = 0; g_steps_after_fail = 0; g_local_model = M_Init;
+  int rc = KrigingSystem_estimate(W_iech);
+  __CPROVER_assert(g_store_calls <= 1, "at most one store routine runs for a target");
+  __CPROVER_assert(g_store_calls == 0 || ((g_store_status != 0) == (g_fail != 0)),
+                   "the store routine receives a non-zero status exactly when a step of THIS target failed (neighbourhood shortcuts, left-hand side, right-hand side)");
+  __CPROVER_assert(g_steps_after_fail == 0, "no further step of the system is computed after a failed one");
+  __CPROVER_assert(!g_fail || g_changed_calls >= 1, "a failed target invalidates the neighbourhood memo, so that the next target rebuilds its system");
+  __CPROVER_assert(g_wgt_calls == 0 || !g_fail, "weights are derived only from a completely built system");
+  VF_REACH();
+}
+"""
+    return Unit("C10.estimate.status", [f], prelude=pre, harness=h, pre_inputs=BOOL + "int nondet_int(void); _Bool nondet_bool(void);\n", unwind=2,
+                inputs=[("int", "W_iech"), ("int", "W_neighType"), ("bool", "W_neighOnly"), ("bool", "W_bayes"), ("bool", "W_dataChanged"), ("bool", "W_std"), ("bool", "W_varz"),
+                        ("bool", "W_simu"), ("bool", "W_weights"), ("bool", "W_kp"), ("bool", "W_anam"), ("bool", "W_global"), ("bool", "W_xvalid"), ("bool", "W_force"), ("bool", "W_continuous")],
+                checks=["--signed-overflow-check"], backends=("minisat", "cadical"), timeout=300,
+                claim=("KrigingSystem::estimate (real text, every callee a stub that may fail): for every option combination the store routine of the target receives a "
+                       "non-zero status exactly when one of the steps of THIS target failed, no step is computed after a failed one, weights are derived only from a "
+                       "completely built system, and a failed target invalidates the neighbourhood memo - so no value computed for an earlier target is served"),
+                assumptions=["Route C: every callee of estimate() is a stub logging into ghost counters; each step that returns a status may fail nondeterministically",
+                             "debug printing (OptDbg::query) off"],
+                canaries=[{"fn": "KrigingSystem::estimate", "rx": r"status = _prepar\(\);", "rp": "_prepar();", "expect": r"assertion"}])
+
+
 def units(tier):
-    return [unit_optim_pairing(), unit_krigcalc()]
+    return [unit_optim_pairing(), unit_krigcalc(), unit_estimate_status()]
 
 
 META = {
